@@ -218,10 +218,10 @@ type UploadCase struct {
 	MaxMemory int64  `json:"max_memory"`
 	// WellFormed: the generator built a request that follows the multipart spec; Expect lists, per
 	// variable path, the file that must arrive there
-	WellFormed bool              `json:"well_formed"`
-	Expect     map[string]int    `json:"expect,omitempty"` // "files.0" -> index of the file part
-	Field      string            `json:"field,omitempty"`
-	Defect     string            `json:"defect,omitempty"`
+	WellFormed bool           `json:"well_formed"`
+	Expect     map[string]int `json:"expect,omitempty"` // "files.0" -> index of the file part
+	Field      string         `json:"field,omitempty"`
+	Defect     string         `json:"defect,omitempty"`
 	// CutTail: the request body is cut this many bytes before its end (a client that stops mid-file)
 	CutTail int `json:"cut_tail,omitempty"`
 }
